@@ -20,11 +20,8 @@ def r1(ctx):
     bpe_ids.check_get_vocab(ctx)
     bpe_ids.check_vocab_size(ctx)
     # id_to_token: byte branch is `id < 256 -> vec![id as u8]`
-    facts_ok = False
-    for t in b.terms('switch'):
-        d = sym(b, t.discr)
-        if match(d, ('bin', 'Lt', ('arg', 2, ANY), Const(256))):
-            facts_ok = True
+    from rules.common import byte_boundary_tests
+    facts_ok = bool(byte_boundary_tests(b, ('arg', 2, ANY)))
     ctx.require(facts_ok, b, 'byte-branch', 'BPE id_to_token: ids below 256 are the single bytes (strict `< 256`)', None)
 
 
